@@ -536,6 +536,17 @@ func factsTabular(o *out, ps pkgs) {
 		})
 	}
 	o.def("tabularCallArgs", "List (String × String × List String)", joinTuples(rec))
+	// which operators are merged when adjacent: the operator list handed to CollapseAdjacentOperators, per call site
+	var col []string
+	enclosingFuncs(ps["IG-Parser/core/exporter/tabular"], func(fn string, fd *ast.FuncDecl) {
+		ast.Inspect(fd.Body, func(n ast.Node) bool {
+			if call, ok := n.(*ast.CallExpr); ok && exprStr(call.Fun) == "tree.CollapseAdjacentOperators" && len(call.Args) == 2 {
+				col = append(col, "("+lq(fn)+", "+lq(exprStr(call.Args[1]))+")")
+			}
+			return true
+		})
+	})
+	o.def("collapseCallSites", "List (String × String)", joinTuples(col))
 }
 
 // ---- range over maps ------------------------------------------------------------------------
